@@ -225,7 +225,7 @@ def explore(chk, g, n_seeds, per_seed, tag, sweep=False):
         for (kind, w), om, oa in zip(uniq, out_m, out_a):
             for api, fn, data, model, can in (("DiameterMessage.load", DiameterMessage.load, w, om, c02.canon_msgs),
                                              ("DiameterAVP.load", DiameterAVP.load, w[20:], oa,
-                                              lambda avps: "ok " + " ".join(c02.canon_avp(a) for a in avps))):
+                                              lambda avps: c02.canon_msgs([]) [:0] + "ok " + " ".join(c02.canon_avp(a) for a in avps[:20000]))):
                 impl, iters = run_load(fn, data, counter, can)
                 if api == "DiameterAVP.load" and impl == "ok ":
                     impl = "ok "
